@@ -132,7 +132,7 @@ def run(ctx):
                 break
         ctx.log("replayed %d call sequences (%d TLC behaviours) of instance fwd/%s" % (len(scen), len(res.replays), name))
     # 3. randomized multi-thread runs -> trace validation (mode B)
-    evs, res, kinds = rc.random_traces(ctx, "C04", ctx.pick(8, 60), ctx.pick(60, 120))
+    evs, res, kinds = rc.random_traces(ctx, "C04", ctx.pick(8, 40), ctx.pick(60, 100))
     if res.ok and kinds.get("recv-dg", 0) == 0:
         raise rc.ToolError("vacuity: no datagram was delivered in the random runs")
     if not ctx.quick and res.ok:
